@@ -43,6 +43,11 @@ func wiringScenario(r *ev.Run, id string, i int) *p2prig.Scenario {
 	if i%5 != 3 && (i/5)%2 == 0 {
 		n0.LoseFirstN = 9 + rng.Intn(4)
 	}
+	if (i/5)%2 == 0 && i%5 != 3 {
+		// the goroutine that reports a closed connection pauses for a moment right after telling the peer handler, so that
+		// "reported as gone" and "announced as new" reach the peer handler in either order, with time in between
+		s.DelayPoints = map[string]int{"peerDone.reported": 2}
+	}
 	s.Nodes = []p2prig.NodeSpec{n0}
 	s.Announce = []p2prig.AnnounceSpec{{Blocks: 1, Mode: "conformant"}}
 	return s
